@@ -9,8 +9,10 @@
 EXTENDS Integers, Sequences, FiniteSets, TLC, Json
 
 TubeRefs == {"live-rel", "live-unrel", "closed-rel", "never-rel", "never-unrel", "witness",
-             "finwait1-rel", "lastack-rel"}     \* the victim has a FIN outstanding (it closed first / after the peer)
-LenClasses == {"zero", "exact", "declared-less", "declared-more", "declared-max"}
+             "finwait1-rel", "lastack-rel",     \* the victim has a FIN outstanding (it closed first / after the peer)
+             "full-unrel"}                      \* an unreliable tube nobody reads, its receive queue exactly full
+LenClasses == {"zero", "exact", "declared-less", "declared-more", "declared-max",
+               "exact-huge"}                    \* consistent, but above the largest frame a regular sender produces
 AckClasses == {"below", "current", "sent", "beyond", "max"}
 NoClasses  == {"below", "next", "inwindow", "beyond"}
 FlagSets   == 0..63                              \* REQ RESP REL ACK FIN RTR
@@ -21,6 +23,14 @@ Decoders == {"userauth", "exec", "winsize", "pfaddr", "intent", "confdenial", "t
              "execstatus"}      \* the CLIENT side: the execution status message from a hostile server
 ByteClasses == {"empty", "truncated-header", "truncated-body", "length-gt-remaining", "length-max", "unknown-enum", "valid", "random"}
 DecoderEdges == Decoders \X ByteClasses
+
+(* The session layer: which tubes an admitted peer opens, in which order, and what it does with each.  The session's *)
+(* accept loop dispatches on the tube type and, for execution, expects a second tube right behind the first.       *)
+OpenTypes == {1, 2, 3, 4, 5, 6, 7, 200}          \* exec, authgrant, principal proxy, userauth, pf control, pf data, winsize, unknown
+OpenItems == [t : OpenTypes, r : {"rel", "unrel"}, a : {"idle", "junk", "close"}]
+OpenSeqs2    == {<<x>> : x \in OpenItems} \cup {<<x, y>> : x, y \in OpenItems}
+OpenSeqs     == OpenSeqs2                        \* replaced by OpenSeqsDeep in the thorough configuration
+OpenSeqsDeep == OpenSeqs2 \cup {<<x, y, z>> : x, y, z \in {i \in OpenItems : i.a = "junk"}}
 
 VARIABLES others, stoppable, own
 vars == <<others, stoppable, own>>
@@ -34,4 +44,5 @@ OthersIntact == others = "intact"
 Stoppable == stoppable
 Emit == PrintT(<<"EDGES", ToJson([frames |-> {[t |-> e[1], l |-> e[2], a |-> e[3], n |-> e[4]] : e \in FrameEdges},
                                    decoders |-> {[d |-> e[1], c |-> e[2]] : e \in DecoderEdges}])>>)
+        /\ PrintT(<<"OPENS", ToJson(OpenSeqs)>>)
 =============================================================================
